@@ -26,7 +26,7 @@ ST_TB = [
     "modelled, differentially validated: ParseStatic and its ten row loops as Gtfs.Static.* (hand-written Lean model from the list of archive members; compared on every generated feed, all fields and references, through the public API)",
     "modelled, differentially validated: encoding/csv as csv.New configures it plus the UTF-8 BOM removal, as the byte-level fold Gtfs.Csv (UTF-16 byte-order marks and invalid UTF-8 after a BOM are outside the model)",
     "model boundary: archive/zip and compress/flate (trusted; the harness wraps the members into a zip, store or deflate)",
-    "parameters of the model (library calls, computed by the harness for every cell of the case): parseFloat64 = TrimSpace + strconv.ParseFloat (the harness's replica is the reading 'decimal numbers exactly'; strconv trusted), time.LoadLocation (zone database trusted)",
+    "parameters of the model (library calls, computed by the harness for every cell of the case): parseFloat64 = TrimSpace + strconv.ParseFloat, time.LoadLocation (zone database trusted). The float answers are not trusted: for every cell that is a plain decimal (after trimming ASCII white space) the model certifies, in exact natural-number arithmetic, that the reported bits are the round-to-nearest, ties-to-even binary64 value of the decimal (Gtfs.Float.certify: signed zeros, subnormals, the overflow threshold); a refused cell is a disagreement. The certificate itself is validated against strconv.ParseFloat on random and adversarial decimals (ties between neighbouring doubles +- one unit in the last place, range edges) with the neighbouring bit patterns as negative controls (stream FLT, run with C01). Cells outside the plain decimal grammar (hex floats, inf, nan) keep the harness's answer uncertified",
     "a date is its civil day number (Gtfs.Civil); the instant at which it is surfaced is Gtfs.Zone.dateUnix (time.Date's code over the transition table of the feed's zone, exported from the implementation's zone database by walking Time.ZoneBounds, range 1980-2045), compared with .Unix() of every start, end, added and removed date; that each date carries the reported location and reads 00:00:00 there is additionally observed by the canonicaliser",
     "references are indices; the Go canonicaliser computes them by pointer identity and reports a pointer that is not an element of the result's own collection",
     "column names/required flags, ReadOr defaults, the file table, enum decoders and constants are regenerated from the source (Gen.Columns, Gen.FileTable, Gen.Enums)",
@@ -41,6 +41,7 @@ PROPS = {
     "C01": {
         "module": "GtfsVerif.Props.C01",
         "trusted_base": ST_TB,
+        "runs": [{"cmd": "run", "prop": "C01"}, {"cmd": "run", "prop": "FLT"}],
         "partial": ["the composition is proved in three layers that the reader has to put together: bytes to header and rows for every presentation (C01_readFile_presented), ParseStatic on a readable feed as the composition of the ten per-file row functions in dependency order (C01_composition, C01_composition_explicit), and per-row transcription / one entity per accepted row (C01_route_fields, C01_trip_fields, C01_stop_fields, C01_transfer_fields, C01_shape_row_fields, C01_frequency_fields, C01_stop_time_fields, C01_calendar_row, C01_one_entity_per_row; agency rows and calendar_dates rows are tied by the correspondence and by C09/C11's theorems), with the oracle comparing every field with the generated cells and two further presentations",
                     "a transfers.txt row with from_stop_id = to_stop_id yields no Transfer (finding D20, pinned by TestParse/same_stop_transfer): well-formed feeds of the generator keep from != to"],
         "assumptions": ["values free of CR; unquoted fields free of comma, quote, LF (as the statement's quantifier)"],
@@ -173,8 +174,8 @@ PROPS = {
 
 MANIFEST_TEXT = {
     "C01": {
-        "text": "Theorems: the CSV reader returns exactly the written records for every quoting / LF-CRLF / final-newline choice (proved over the byte-level reader model), BOM removal, lookup by header name and member lookup by name, per-row transcription of routes / stops / trips, one entity per accepted row in order, ParseStatic on a readable feed as the composition of the ten per-file row functions in dependency order, H:MM:SS (past 24:00:00) and YYYYMMDD decoding, enums by digit over the regenerated decoders; columns, required flags and the file table of the source are tied to the model's. The correspondence parses each well-formed feed under three presentations and compares every field with the model and with the generated cells.",
-        "note": "Trusted: Lean kernel, harness, zip/flate, strconv, tz database; encoding/csv is modelled and validated (also by a dedicated random-bytes stream). The composition is proved in layers (presentation, ten-file composition, per-row transcription for routes, trips, stops, transfers, shape points, frequencies, stop times and calendar rows).",
+        "text": "Theorems: the CSV reader returns exactly the written records for every quoting / LF-CRLF / final-newline choice (proved over the byte-level reader model), BOM removal, lookup by header name and member lookup by name, per-row transcription of routes / stops / trips, one entity per accepted row in order, ParseStatic on a readable feed as the composition of the ten per-file row functions in dependency order, H:MM:SS (past 24:00:00) decoding, YYYYMMDD decoding for every eight-digit string (valid dates are the civil day they name, everything else is rejected: no roll-over), decimal cells certified as correctly rounded binary64 values (within half a unit in the last place, ties to even; exact arithmetic), enums by digit over the regenerated decoders; columns, required flags and the file table of the source are tied to the model's. The correspondence parses each well-formed feed under three presentations and compares every field with the model and with the generated cells.",
+        "note": "Trusted: Lean kernel, harness, zip/flate, tz database; strconv.ParseFloat is not trusted for plain decimals (every answer is certified in exact arithmetic; the certificate is validated against strconv with neighbouring bit patterns as negative controls; that exactly one pattern passes is validated that way, not proved); encoding/csv is modelled and validated (also by a dedicated random-bytes stream). The composition is proved in layers (presentation, ten-file composition, per-row transcription for routes, trips, stops, transfers, shape points, frequencies, stop times and calendar rows).",
         "technique": "Lean 4 proof (CSV presentation round trip, per-row transcription) over regenerated schema facts + generator-truth correspondence",
     },
     "C03": {
